@@ -397,6 +397,12 @@ impl<T> AtomicBucket<T> {
         #[cfg(metrics_verif)]
         metrics::verif::point("bkt.clear.load_tail");
         let mut block_ptr = self.tail.load(Ordering::Acquire, guard);
+        #[cfg(metrics_verif)]
+        {
+            if !block_ptr.is_null() {
+                metrics::verif::point("bkt.clear.cas");
+            }
+        }
         if !block_ptr.is_null()
             && self
                 .tail
